@@ -1253,6 +1253,7 @@ lys_compile_type_pattern_check(const struct ly_ctx *ctx, const char *pattern, pc
     const char *orig_ptr;
     PCRE2_SIZE err_offset;
     pcre2_code *code_local;
+    pcre2_compile_context *cctx;
     ly_bool escaped;
     LY_ERR r;
 
@@ -1342,9 +1343,15 @@ lys_compile_type_pattern_check(const struct ly_ctx *ctx, const char *pattern, pc
         return r;
     }
 
+    /* '.' of XML Schema matches anything except both \n and \r */
+    cctx = pcre2_compile_context_create(NULL);
+    LY_CHECK_ERR_RET(!cctx, LOGMEM(ctx); free(perl_regex), LY_EMEM);
+    pcre2_set_newline(cctx, PCRE2_NEWLINE_ANYCRLF);
+
     /* must return 0, already checked during parsing */
     code_local = pcre2_compile((PCRE2_SPTR)perl_regex, PCRE2_ZERO_TERMINATED, compile_opts,
-            &err_code, &err_offset, NULL);
+            &err_code, &err_offset, cctx);
+    pcre2_compile_context_free(cctx);
     if (!code_local) {
         PCRE2_UCHAR err_msg[LY_PCRE2_MSG_LIMIT] = {0};
 
